@@ -103,6 +103,8 @@ def _qcow2(rng, ctx, c, cnt, sample, res, with_snaps=False):
     cb = rng.choice([10, 12, 16] if not with_snaps else [9, 12, 16])
     cs = 1 << cb
     ncl = rng.randrange(1, 12)
+    if with_snaps and cb == 9 and rng.random() < 0.6:
+        ncl = rng.randrange(70, 300)  # several L2 tables: the L1 table of a snapshot may be shorter than the active one
     size = ncl * cs - SECTOR * rng.randrange(0, cs // SECTOR)
     exts_spec = []
     room = cs - 200
@@ -151,7 +153,11 @@ def _qcow2(rng, ctx, c, cnt, sample, res, with_snaps=False):
     views = [wq.make_view(rng, size=size, cluster_bits=cb, kinds=kinds, extl2=False, tag=rng.getrandbits(40))]
     metas = []
     for i in range(nsnap):
-        views.append(wq.make_view(rng, size=size, cluster_bits=cb, kinds=[rng.choice("NU") for _ in range(ncl)], extl2=False, tag=rng.getrandbits(40)))
+        skinds = [rng.choice("NU") for _ in range(ncl)]
+        if ncl >= 70 and rng.random() < 0.6:
+            cut = rng.randrange(1, ncl // 2)  # taken when the disk was smaller
+            skinds = skinds[:cut] + ["U"] * (ncl - cut)
+        views.append(wq.make_view(rng, size=size, cluster_bits=cb, kinds=skinds, extl2=False, tag=rng.getrandbits(40)))
         extra_size = rng.choice([0, 16, 16, 24, 24, 32, 40, 48, 61])
         metas.append({"id": _text(rng, rng.randrange(1, 14), rng.choice(["0123456789ab", "0123456789ab", "12snäp日😀-"])).encode(), "name": _text(rng, rng.randrange(0, 40)).encode(),
                       "extra_size": extra_size, "disk_size": rng.getrandbits(63), "vm_state_large": rng.getrandbits(64), "icount": rng.getrandbits(64),
@@ -164,7 +170,7 @@ def _qcow2(rng, ctx, c, cnt, sample, res, with_snaps=False):
     img, dataf, meta = wq.build(rng, cluster_bits=cb, size=size, views=views, version=ver, header_length=hl, extensions=exts, backing_name=bname,
                                 external_data=external and bool(datafile_named), data_file_name=datafile_named[0] if datafile_named else None,
                                 placement="shuffle", snapshots_meta=metas, l1_extra=rng.choice([0, 2]), compat=compat, autoclear=autoclear,
-                                refcount_order=rng.choice([4, 4, 3, 6]), rand_info=False, ext_end_marker=rng.random() < 0.7)
+                                refcount_order=rng.choice([4, 4, 3, 6]), rand_info=False, ext_end_marker=rng.random() < 0.7, snap_short_l1=rng.random() < 0.7)
     ext_on = external and bool(datafile_named)
     q = _open(QCow2, as_handle(img.to_bytes()), data_file=as_handle(dataf.to_bytes()) if ext_on else None,
               backing_file=ALLOW_NO_BACKING_FILE if bname else None)
@@ -208,6 +214,9 @@ def _qcow2(rng, ctx, c, cnt, sample, res, with_snaps=False):
             c.eq(f"snapshots[{i}].name", s.name, m["name"].decode())
             c.eq(f"snapshots[{i}].header.l1_table_offset", s.header.l1_table_offset, meta["l1_infos"][i + 1][0])
             c.eq(f"snapshots[{i}].header.l1_size", s.header.l1_size, meta["l1_infos"][i + 1][1])
+            l1_off_, l1_n_ = meta["l1_infos"][i + 1]
+            c.eq(f"snapshots[{i}].l1_table", list(s.l1_table), list(struct.unpack(f">{l1_n_}Q", img.read_at(l1_off_, 8 * l1_n_))))
+            cnt["snapshot_l1_tables_shorter_than_active"] = cnt.get("snapshot_l1_tables_shorter_than_active", 0) + int(l1_n_ < meta["l1_infos"][0][1])
             for f, key in (("date_sec", "date_sec"), ("date_nsec", "date_nsec"), ("vm_clock_nsec", "vm_clock"), ("vm_state_size", "vm_state_size"), ("extra_data_size", "extra_size")):
                 c.eq(f"snapshots[{i}].header.{f}", getattr(s.header, f), m[key])
             if m["extra_size"] >= 8:
@@ -265,7 +274,14 @@ def _vhdx(rng, ctx, c, cnt, sample, res, parent=False):
         extra_keys = ["parent_linkage", "parent_linkage2", "absolute_win32_path", "volume_path"] + [_text(rng, rng.randrange(1, 12), "abcxyz_") for _ in range(rng.randrange(0, 4))]
         for k in dict.fromkeys(extra_keys):
             if rng.random() < 0.7:
-                ents.append((k, _text(rng, rng.randrange(0, 60))))
+                v_ = _text(rng, rng.randrange(0, 60))
+                if rng.random() < 0.15:
+                    # the strings are UTF-16-LE as stored; a value or key may begin with any character, also U+FEFF or U+FFFE
+                    # (which a byte-order-sniffing decoder would eat or take as a cue)
+                    v_ = rng.choice(["\ufeff", "\ufffe"]) + v_
+                if rng.random() < 0.05 and k not in ("parent_linkage", "parent_linkage2", "absolute_win32_path", "volume_path"):
+                    k = rng.choice(["\ufeff", "\ufffe"]) + k
+                ents.append((k, v_))
         rng.shuffle(ents)
         loc = wvhdx.parent_locator(ents, layout=rng.choice(["interleaved", "keys-first", "values-first", "reversed", "shuffled", "padded"]), rng=rng)
     tail = rng.randrange(0, bs // ss) if rng.random() < 0.5 else 0
